@@ -1,5 +1,6 @@
 import GrolProofs.MemoryLemmas
 import Grol.Generated.LoopFacts
+import Grol.BoundedSuite
 /-
 C09 — execution is bounded: the arithmetic of the allocation guard, and the depth counter.
 
@@ -97,6 +98,26 @@ theorem C09.arrConcat_sound (free1 free2 : Int) (la lb : Nat) (ha : la < 2 ^ 62)
     exact ⟨h.symm, by simpa using this⟩
   · rw [if_neg hg] at h; cases h
 
+/-- **`string + string`** (lengths of existing strings: below 2^62): the result has exactly `la + lb` bytes and
+that many bytes, counted in 16-byte objects, fit the budget -/
+theorem C09.strConcat_sound (free1 free2 : Int) (la lb : Nat) (ha : la < 2 ^ 62) (hb : lb < 2 ^ 62) (k : Nat)
+    (h : strConcat free1 free2 la lb = .ok k) :
+    k = la + lb ∧ Fits free1 free2 (((la : Int) + lb) / 16) := by
+  unfold strConcat at h
+  simp only at h
+  have hsum : (BitVec.ofNat 64 la + BitVec.ofNat 64 lb : I64) = BitVec.ofNat 64 (la + lb) := by
+    apply BitVec.eq_of_toNat_eq; simp [BitVec.toNat_add, BitVec.toNat_ofNat]
+  rw [hsum] at h
+  have hint : (BitVec.ofNat 64 (la + lb) : I64).toInt = ((la + lb : Nat) : Int) := toInt_ofNat_of_lt (la + lb) (by omega)
+  by_cases hg : mustBeOk free1 free2 ((BitVec.ofNat 64 (la + lb) : I64).sdiv 16#64) = true
+  · rw [if_pos hg] at h
+    injection h with h
+    have := mustBeOk_sound _ _ _ hg
+    rw [toInt_sdiv16 _ (by rw [hint]; omega), hint] at this
+    rw [toNat_ofNat_of_lt (la + lb) (by omega)] at h
+    exact ⟨h.symm, by simpa using this⟩
+  · rw [if_neg hg] at h; cases h
+
 /-- **`map + map`**: room for `2 * (la + lb)` objects (key and value) is checked -/
 theorem C09.mapAppend_sound (free1 free2 : Int) (la lb : Nat) (ha : la < 2 ^ 61) (hb : lb < 2 ^ 61) (k : Nat)
     (h : mapAppend free1 free2 la lb = .ok k) :
@@ -153,6 +174,8 @@ example : arrRepeat 1000000 1000000 4 (100000#64) = .guard := by decide
 example : arrRepeat 1000000 1000000 4 (4611686018427387904#64) = .err := by decide      -- [1,2,3,4] * (1<<62)
 example : strRepeat 1000000 1000000 4 (4611686018427387904#64) = .err := by decide      -- "abcd" * (1<<62)
 example : range 1000000 1000000 (0#64) (1152921504606846976#64) = .guard := by decide     -- 0:(1<<60)
+example : strConcat 1000000 1000000 3000 2000 = .ok 5000 := by decide
+example : strConcat 200000000 200000000 134217728 134217728 = .guard := by decide          -- 128 MiB + 128 MiB with 200 MB free
 example : range (-1) (-1) (9223372036854775807#64) (BitVec.ofInt 64 (-9223372036854775758)) = .ok 0 := by decide
 
 end Grol.Memory
@@ -263,6 +286,19 @@ theorem C09.chain_ok_iff (m n : Nat) : ∀ d, ((run m d (chain n)).2 = .ok d ↔
         constructor
         · intro _; omega
         · intro _; simp [run]
+
+/-- the depth prediction used by the `bounded` suite's driver is the counter model run on a chain -/
+theorem C09.chainOk_spec (m n : Nat) :
+    Grol.BoundedSuite.chainOk m n = true ↔ (run m 0 (chain n)).2 = .ok 0 := by
+  rw [C09.chain_ok_iff]
+  unfold Grol.BoundedSuite.chainOk
+  simp only [Bool.or_eq_true, beq_iff_eq, decide_eq_true_eq]
+  omega
+
+/-- unbounded recursion (a chain longer than the limit allows) always ends in the recoverable guard -/
+theorem C09.unbounded_recursion_guarded (m : Nat) : Grol.BoundedSuite.chainOk m (m + 2) = false := by
+  unfold Grol.BoundedSuite.chainOk
+  simp
 
 example : (run 3 0 (chain 4)).2 = .ok 0 := by decide
 example : (run 3 0 (chain 5)).2 = .maxDepth 4 := by decide
